@@ -66,6 +66,8 @@ type ctx struct {
 	counts        map[string]int
 	tmp           int
 	timeRewritten bool
+	netRewritten  bool
+	httpRewritten bool
 	chanName      map[string]bool // identifiers known to be channels (heuristic, for range)
 	chanType      map[string]bool // named channel types of the package
 }
@@ -532,6 +534,48 @@ func (c *ctx) file(f *ast.File) {
 			return true
 		})
 	}
+	// the network seam: listening, dialling and the HTTP service registration go
+	// through rt, where a harness can install a simulated network (rt/net.go)
+	usesNet, usesHTTP := false, false
+	for _, im := range f.Imports {
+		if im.Path.Value == `"net"` && im.Name == nil {
+			usesNet = true
+		}
+		if im.Path.Value == `"net/http"` && im.Name == nil {
+			usesHTTP = true
+		}
+	}
+	if usesNet || usesHTTP {
+		ast.Inspect(f, func(n ast.Node) bool {
+			sel, ok := n.(*ast.SelectorExpr)
+			if !ok {
+				return true
+			}
+			id, ok := sel.X.(*ast.Ident)
+			if !ok || id.Obj != nil {
+				return true
+			}
+			if usesNet && id.Name == "net" {
+				switch sel.Sel.Name {
+				case "Listen", "Dial", "DialTimeout":
+					id.Name = rtName
+					c.changed = true
+					c.netRewritten = true
+					c.counts["net."+sel.Sel.Name]++
+				}
+			}
+			if usesHTTP && id.Name == "http" {
+				switch sel.Sel.Name {
+				case "HandleFunc", "ListenAndServe":
+					id.Name = rtName
+					c.changed = true
+					c.httpRewritten = true
+					c.counts["http."+sel.Sel.Name]++
+				}
+			}
+			return true
+		})
+	}
 	// slog handlers serialise their writes with a mutex of their own, which the
 	// scheduler cannot see: a goroutine parked inside the writer (a simulated disk,
 	// an emulated lock) would block the next logging goroutine outside the
@@ -557,6 +601,14 @@ func (c *ctx) file(f *ast.File) {
 		if c.timeRewritten {
 			// keep "time" used
 			f.Decls = append(f.Decls, &ast.GenDecl{Tok: token.VAR, Specs: []ast.Spec{&ast.ValueSpec{Names: []*ast.Ident{ast.NewIdent("_")}, Values: []ast.Expr{&ast.SelectorExpr{X: ast.NewIdent("time"), Sel: ast.NewIdent("Now")}}}}})
+		}
+		if c.netRewritten {
+			// keep "net" used
+			f.Decls = append(f.Decls, &ast.GenDecl{Tok: token.VAR, Specs: []ast.Spec{&ast.ValueSpec{Names: []*ast.Ident{ast.NewIdent("_")}, Values: []ast.Expr{&ast.SelectorExpr{X: ast.NewIdent("net"), Sel: ast.NewIdent("IPv4len")}}}}})
+		}
+		if c.httpRewritten {
+			// keep "net/http" used
+			f.Decls = append(f.Decls, &ast.GenDecl{Tok: token.VAR, Specs: []ast.Spec{&ast.ValueSpec{Names: []*ast.Ident{ast.NewIdent("_")}, Values: []ast.Expr{&ast.SelectorExpr{X: ast.NewIdent("http"), Sel: ast.NewIdent("StatusOK")}}}}})
 		}
 		if usesOS {
 			// keep "os" used
@@ -606,6 +658,7 @@ func ResetFile(dir, out string) (string, error) {
 	}
 	pkg := ""
 	var lines []string
+	netListen, netDial, netForeign := 0, 0, 0
 	for _, e := range ents {
 		n := e.Name()
 		if e.IsDir() || !strings.HasSuffix(n, ".go") || strings.HasSuffix(n, "_test.go") {
@@ -626,6 +679,23 @@ func ResetFile(dir, out string) (string, error) {
 		if strings.Contains(head, "//go:build") || strings.Contains(head, "+build") || strings.Contains(n, "_windows") || strings.Contains(n, "_darwin") {
 			continue // may not be part of this build
 		}
+		ast.Inspect(f, func(n ast.Node) bool {
+			sel, ok := n.(*ast.SelectorExpr)
+			if !ok {
+				return true
+			}
+			if id, ok := sel.X.(*ast.Ident); ok && id.Name == "net" && id.Obj == nil {
+				switch sel.Sel.Name {
+				case "Listen":
+					netListen++
+				case "Dial", "DialTimeout":
+					netDial++
+				case "ListenTCP", "ListenUnix", "ListenPacket", "ListenUDP", "ListenIP", "DialTCP", "DialUnix", "DialUDP", "DialIP", "Dialer", "ListenConfig", "FileListener", "FileConn":
+					netForeign++
+				}
+			}
+			return true
+		})
 		for _, d := range f.Decls {
 			gd, ok := d.(*ast.GenDecl)
 			if !ok || gd.Tok != token.VAR {
@@ -676,6 +746,10 @@ func ResetFile(dir, out string) (string, error) {
 		src += "\t" + l + "\n"
 	}
 	src += "}\n"
+	// the network seam is usable for this package when its plain-TCP listening and
+	// dialling go through net.Listen / net.Dial (which the rewriter redirects) and
+	// through nothing the rewriter does not know
+	src += fmt.Sprintf("\nvar vsimNetSeam = %v\n", netListen > 0 && netDial > 0 && netForeign == 0)
 	if err := os.MkdirAll(filepath.Dir(out), 0o755); err != nil {
 		return "", err
 	}
@@ -737,7 +811,7 @@ func DiskSeam(modDir, repoGoMod, out string) (copyDir string, ok bool, err error
 	}
 	// instrument the two packages (same timer semantics as the module under test)
 	stage := filepath.Join(out, "dep")
-	for _, pkg := range []string{"dailylogger", "switchwriter"} {
+	for _, pkg := range []string{"dailylogger", "switchwriter", "statusreporter"} {
 		os.MkdirAll(filepath.Join(stage, pkg), 0o755)
 		ents, _ := os.ReadDir(filepath.Join(copyDir, pkg))
 		for _, e := range ents {
